@@ -31,8 +31,17 @@ func (s ExploreUnion) Interests() []datamodel.PathSegment {
 	// Accumulate the whitelist of interesting path segments.
 	// TODO: Dedup?
 	v := []datamodel.PathSegment{}
+	seen := make(map[string]struct{})
 	for _, m := range s.Members {
-		v = append(v, m.Interests()...)
+		for _, ps := range m.Interests() {
+			// A child named by several members is explored once:
+			// Explore already merges the continuations of all members interested in it.
+			if _, dup := seen[ps.String()]; dup {
+				continue
+			}
+			seen[ps.String()] = struct{}{}
+			v = append(v, ps)
+		}
 	}
 	return v
 }
